@@ -102,7 +102,8 @@ NotForI == {"b", "y"}
 NotForQ == {"a", "x", "g"}
 SortOf(n) == IF n \in NotForQ THEN "I" ELSE IF n \in NotForI THEN "Q" ELSE "A"
 NameAtoms(h) ==
-    {Nm(x) : x \in Range(h.p) \ (IF h.s = "I" THEN NotForI ELSE IF h.s \in {"Q", "P", "PP"} THEN NotForQ ELSE {})}
+    {Nm(x) : x \in (Range(h.p) \ (IF h.s = "I" THEN NotForI ELSE IF h.s \in {"Q", "P", "PP"} THEN NotForQ ELSE {}))
+                     \ (IF Wide THEN {} ELSE {"x", "y", "g"})}
     \cup (IF HasFlag(h, "C") /\ h.s \in {"I", "A"} THEN {Op("attr", "w", <<Nm("o")>>)} ELSE {})
     \cup (IF HasFlag(h, "C") /\ h.s \in {"Q", "A"} THEN {Op("attr", "v", <<Nm("o")>>), Op("attr", "v", <<Nm("C")>>)} ELSE {})
     \cup (IF HasFlag(h, "m") /\ h.s \in {"I", "A"} THEN {Op("attr", "w", <<Nm("self")>>)} ELSE {})
@@ -123,13 +124,14 @@ EProds(h) ==
         It == Hole("Q", d - 1, h.p, <<>>, h.a)
         Comp(kind, elt, cond) == N("comp", kind, 0, <<"j">>, <<>>, <<elt, It, cond>>)
         Conds == IF Wide THEN {TrueL, El("A")} ELSE {TrueL}
-        Lam(s) == CallN(N("lambda", "", 0, <<"p">>, <<>>, <<Hole(s, d - 1, h.p \o <<"p">>, <<>>, <<"lam">>)>>), <<E(s)>>)
+        LamNames == IF HasFlag(h, "c") THEN SelectSeq(h.p, LAMBDA x : x # "v") ELSE h.p
+        Lam(s) == CallN(N("lambda", "", 0, <<"p">>, <<>>, <<Hole(s, d - 1, LamNames \o <<"p">>, <<>>, <<"lam">>)>>), <<E(s)>>)
         TupOf(e) == CallN(Nm("tuple"), <<e>>)
         UserCalls == (IF HasFlag(h, "H") THEN {CallN(Nm("h"), <<A>>), CallN(Nm("h"), <<A, A>>)}
                                               \cup (IF Wide THEN {CallN(Nm("h"), <<>>)} ELSE {}) ELSE {})
                      \cup (IF HasFlag(h, "C") THEN {CallN(Op("attr", "m", <<Nm("o")>>), <<A>>)} ELSE {})
     IN  CASE h.s = "I" ->
-               {IntL(0), IntL(1), IntL(2)} \cup NameAtoms(h)
+               (IF Wide THEN {IntL(0), IntL(1), IntL(2)} ELSE {IntL(1)}) \cup NameAtoms(h)
                \cup (IF d <= 0 THEN {} ELSE
                      {Op("bin", o, <<I, I>>) : o \in {"+", "-", "*", "//"}}
                      \cup {Op("neg", "", <<I>>), Op("cond", "", <<A, I, I>>), Op("log", "", <<I>>), Op("sub", "", <<Q, I>>),
@@ -141,7 +143,7 @@ EProds(h) ==
                            {CallN(Nm("sum"), <<Comp("gen", El("I"), c)>>) : c \in Conds}
                            \cup {CallN(Nm("len"), <<Comp("set", El("A"), TrueL)>>), CallN(Nm("min"), <<Comp("gen", El("I"), TrueL)>>)}))
           [] h.s = "Q" ->
-               {Tuple0, ConstT, StrL("b")} \cup NameAtoms(h)
+               (IF Wide THEN {Tuple0, ConstT, StrL("b")} ELSE {ConstT}) \cup NameAtoms(h)
                \cup (IF d <= 0 THEN {} ELSE
                      {Op("tuple", "", <<A, A>>), Op("tuple", "", <<A>>), Op("list", "", <<A, A>>),
                       Op("bin", "+", <<TupOf(Q), TupOf(Q)>>), Op("bin", "+", <<CallN(Nm("list"), <<Q>>), Op("list", "", <<A>>)>>),
@@ -172,7 +174,7 @@ EProds(h) ==
                 Op("list", "", <<Hole("P", d, h.p, h.w, h.a), Hole("A", d, h.p, h.w, h.a)>>)}
                \cup (IF Wide THEN NameAtoms(h) ELSE {})
           [] h.s = "A" ->
-               {NoneL, IntL(1), StrL("b")} \cup NameAtoms(h)
+               (IF Wide THEN {NoneL, IntL(1), StrL("b")} ELSE {NoneL}) \cup NameAtoms(h)
                \cup (IF d <= 0 THEN {} ELSE
                      {Hole("I", d, h.p, h.w, h.a), Hole("Q", d, h.p, h.w, h.a),
                       Op("bin", "<", <<I, I>>), Op("bin", "==", <<A, A>>), Op("bin", "in", <<A, Q>>),
@@ -205,8 +207,9 @@ SProds(h) ==
         \cup {Op("aug", "+", <<Nm(n), EH("Q")>>) : n \in {m \in W : SortOf(m) # "I"}}
         \cup {Op("aug", "*", <<Nm(n), EH("I")>>) : n \in {m \in W : SortOf(m) = "Q"}}
         \cup {Assign(Tup(<<Nm(pr[1]), Nm(pr[2])>>), EH("P")) : pr \in Pairs}
-        \cup {Assign(Tup(<<Nm(pr[1]), Star(Nm(pr[2]))>>), EH("Q")) : pr \in Pairs}
-        \cup {Assign(Tup(<<Star(Nm(pr[1])), Nm(pr[2])>>), EH("Q")) : pr \in Pairs}
+        \cup {Assign(Tup(<<Nm(pr[1]), Star(Nm(pr[2]))>>), EH("P")) : pr \in Pairs}
+        \cup {Assign(Tup(<<Star(Nm(pr[1])), Nm(pr[2])>>), EH("P")) : pr \in Pairs}
+        \cup (IF Wide THEN {Assign(Tup(<<Nm(pr[1]), Star(Nm(pr[2]))>>), EH("Q")) : pr \in Pairs} ELSE {})
         \cup {Assign(Tup(<<Tup(<<Nm(pr[1]), Nm(pr[2])>>), Nm(pr[1])>>), EH("PP")) : pr \in Pairs}
         \* n = [.., ..]; n[k] = ..   /   n[k] += ..   (item assignment needs a list)
         \cup {Block(<<Assign(Nm(n), Lst), Assign(Op("sub", "", <<Nm(n), I0>>), EH("A"))>>) : n \in W}
@@ -567,6 +570,9 @@ RECURSIVE Eval(_, _, _), EvalList(_, _, _, _, _), EvalOps(_, _, _), EvalComp(_, 
           Builtin(_, _, _), AnyAll(_, _, _), Exec(_, _, _), ExecBlock(_, _, _, _), ForLoop(_, _, _, _),
           AssignT(_, _, _, _), AssignSeq(_, _, _, _, _), ExecAug(_, _, _)
 
+RECURSIVE IsLit(_)
+IsLit(n) == n.t \in {"int", "str", "none", "true"} \/ (n.t = "tuple" /\ \A k \in 1..Len(n.a) : IsLit(n.a[k]))
+
 (* -> [st, vs] *)
 EvalList(ns, k, env, st, acc) ==
     IF k > Len(ns) THEN [st |-> st, vs |-> acc]
@@ -766,7 +772,10 @@ Eval(n, env, st) ==
             IN  IF r.ok THEN R(st1, r.v) ELSE R(Raise(st1, r.err, "name", "?"), VNone)
       [] n.t = "tuple" -> LET r == EvalOps(n.a, env, st) IN IF Bad(r.st) THEN R(r.st, VNone) ELSE R(r.st, VTuple(r.vs))
       [] n.t = "list" -> LET r == EvalOps(n.a, env, st) IN IF Bad(r.st) THEN R(r.st, VNone) ELSE NewList(r.st, r.vs)
-      [] n.t = "bin" -> LET r == EvalOps(n.a, env, st) IN IF Bad(r.st) THEN R(r.st, VNone) ELSE BinOp(n.s, r.vs[1], r.vs[2], r.st)
+      [] n.t = "bin" -> LET r == EvalOps(n.a, env, st)
+                        IN  IF Bad(r.st) THEN R(r.st, VNone)
+                            ELSE LET res == BinOp(n.s, r.vs[1], r.vs[2], r.st)
+                                 IN  IF res.st.exc # "" /\ IsLit(n.a[1]) /\ IsLit(n.a[2]) THEN R(Flag(res.st, {"constop"}), res.v) ELSE res
       [] n.t = "not" -> LET r == Eval(n.a[1], env, st) IN IF Bad(r.st) THEN r ELSE R(r.st, VBool(~Truth(r.v, r.st.heap)))
       [] n.t = "neg" -> LET r == Eval(n.a[1], env, st)
                         IN  IF Bad(r.st) THEN r ELSE IF IsInt(r.v) THEN R(r.st, VInt(0 - r.v.i)) ELSE TErr(r.st, "unary")
@@ -782,7 +791,16 @@ Eval(n, env, st) ==
                         IN  IF Bad(r.st) THEN r
                             ELSE LET s == ReprTop(r.v, r.st.heap)
                                  IN  IF HasAt(s) THEN R(Oom(r.st), VNone) ELSE R([r.st EXCEPT !.log = Append(@, s)], r.v)
-      [] n.t = "call" -> LET r == EvalOps(n.a, env, st) IN IF Bad(r.st) THEN R(r.st, VNone) ELSE CallV(r.vs[1], Tail(r.vs), r.st)
+      [] n.t = "call" ->
+            LET r == EvalOps(n.a, env, st)
+                \* min(a, b, ..) / max(a, b, ..): would evaluating the first argument last be observable?
+                mm == n.a[1].t = "name" /\ n.a[1].s \in {"min", "max"} /\ Len(n.a) >= 3
+                alt == EvalList(<<n.a[1]>> \o SubSeq(n.a, 3, Len(n.a)) \o <<n.a[2]>>, 1, env, st, <<>>)
+                differs == \/ alt.st.log # r.st.log \/ alt.st.exc # r.st.exc \/ alt.st.esite # r.st.esite
+                           \/ alt.st.glob # r.st.glob \/ alt.st.oom # r.st.oom
+                           \/ (~Bad(r.st) /\ alt.vs # <<r.vs[1]>> \o SubSeq(r.vs, 3, Len(r.vs)) \o <<r.vs[2]>>)
+                r1 == IF mm /\ differs THEN [st |-> Flag(r.st, {"minmax"}), vs |-> r.vs] ELSE r
+            IN  IF Bad(r1.st) THEN R(r1.st, VNone) ELSE CallV(r1.vs[1], Tail(r1.vs), r1.st)
       [] n.t = "attr" -> LET r == Eval(n.a[1], env, st) IN IF Bad(r.st) THEN r ELSE GetAttr(r.v, n.s, r.st)
       [] n.t = "sub" -> LET r == EvalOps(n.a, env, st) IN IF Bad(r.st) THEN R(r.st, VNone) ELSE GetItem(r.vs[1], r.vs[2], r.st)
       [] n.t = "lambda" ->
@@ -1002,7 +1020,7 @@ Obs(r) ==
     LET st == r.st
         hp == st.heap
         gr == IF "g" \in DOMAIN st.glob THEN ReprTop(st.glob["g"], hp) ELSE "<unbound>"
-        fl == {f \in {"stale", "skipcls", "clsname"} : f \in st.fl}
+        fl == {f \in {"stale", "skipcls", "clsname", "minmax", "constop"} : f \in st.fl}
         base == [kind |-> "ret", ty |-> "", rp |-> "", site |-> "", log |-> st.log, g |-> gr, fl |-> fl]
     IN  IF st.oom \/ HasAt(gr) THEN [base EXCEPT !.kind = "oom"]
         ELSE IF st.exc # "" THEN [base EXCEPT !.kind = "exc", !.ty = st.exc, !.rp = st.eargs, !.site = st.esite]
